@@ -25,4 +25,11 @@ TEXT["C11"] = {
     "note": COMMON_NOTE + "General-size group laws are validated by correspondence only (partial); unitary-matrix and state-vector conversions not yet covered.",
     "technique": "Lean 4 theorems (decide over regenerated tables, exhaustive one-qubit group laws) + oracle/equality correspondence",
 }
+TEXT["C09"] = {
+    "level": "Kernel-checked for every record length and bit pattern: decode(encode bits ++ rest) = (bits, rest) for 01, b8 and r8 (incl. the 255-run split); every decoder (01, b8, r8, hits, dets), on "
+             "arbitrary bytes, accepts only records of exactly n bits (no index >= n is ever produced). Correspondence under ASan+UBSan: writer bytes = Lean reference encoders for all six formats; four reader "
+             "entry points x three widths = Lean decoders on valid, mutated, truncated and random input.",
+    "note": COMMON_NOTE + "hits/dets/ptb64 round trips are validated by correspondence, not yet by theorem (partial). stim convert CLI not yet driven.",
+    "technique": "Lean 4 theorems (induction over codec state) + model-equality correspondence under sanitizers",
+}
 NOT_CLAIMED = {}
